@@ -53,7 +53,7 @@ func checkC08(ctx *Ctx, r *Report, tier string) {
 		r.undecided("U7", "msToLines", 0, "kernel function not found")
 		return
 	}
-	degenerateGuard(ctx, r, kfn, "U4", "Line2")
+	degenerateGuard(ctx, r, emissionFn(kfn, "Line2"), "U4", "Line2")
 	if cf := ctx.ssaFunc("render", "verifCtlMsKernelNoDegenerate"); cf != nil {
 		degenerateGuard(ctx, r, cf, "U4", "Line2")
 	}
@@ -61,7 +61,7 @@ func checkC08(ctx *Ctx, r *Report, tier string) {
 	degenerateTest(ctx, r, "U4", "Line2", 2)
 	degenerateToleranceZero(ctx, r, "U4", "render")
 	equalsAtZeroTolerance(ctx, r, "U4", "v2")
-	freshPrimitivePerIteration(ctx, r, "U4", kfn, "Line2")
+	freshPrimitivePerIteration(ctx, r, "U4", emissionFn(kfn, "Line2"), "Line2")
 	r.floor("U4", 4)
 	kf, err := analyseKernel(ctx, kfn, 2, "msInterpolate")
 	if err != nil {
